@@ -4,14 +4,16 @@ from ..core import parse_sx, sx
 
 THEOREMS = [
     "C07_inner_loop_terminates", "C07_chrom_terminates", "C07_ordered_disjoint", "C07_partition", "C07_stats",
-    "C07_contributions",
+    "C07_contributions", "C07_sections_encoded", "C07_levels_increasing", "C07_levels_increasing_two_pass",
+    "C07_sections_ok", "C07_zoom_query_sections", "C07_zoom_query",
+    "C07_gap_refuted_before_fix", "C07_minmax_refuted_before_fix",
 ]
 
 class C07(Prop):
     ID = "C07"
     THEOREMS = THEOREMS
     RULE = ("bigWig cases built around a chosen resolution r (manual lists incl. 1 and one larger than the chromosome, unsorted/duplicate/zero "
-            "entries, automatic lists with small initial sizes, both pass modes): per chromosome a layout whose gaps are drawn from "
+            "entries, lists of 11-15 distinct sizes (more than the directory's 10 slots), automatic lists with small initial sizes, both pass modes): per chromosome a layout whose gaps are drawn from "
             "{0,1,r-1,r,r+1,3r+2} and lengths from {0,1,r-1,r,r+1,2r,2r+1,5r+3}, with starts placed so that values end exactly on record "
             "boundaries, 1-6 chromosomes, items_per_slot in {1,2,3,7,1024}; plus the shared bbi grammar (dense/sparse/zero-length/long gap/long item); "
             "values are exactly representable multiples of 1/8 (sum and sumsq compared bit for bit) in 4 of 5 cases, arbitrary finite f32 patterns "
@@ -63,7 +65,7 @@ class C07(Prop):
         ips = rng.choice([1, 2, 3, 7, 1024])
         bs = rng.choice([2, 3, 4, 5, 256])
         r = rng.choice([1, 2, 3, 4, 5, 8, 10, 16, 40])
-        mode = rng.choice(["manual", "manual", "manual-multi", "manual-odd", "manual-big", "auto", "auto"])
+        mode = rng.choice(["manual", "manual", "manual-multi", "manual-odd", "manual-big", "manual-many", "auto", "auto"])
         izoom, maxz, manual = 160, 10, []
         if comp and mode == "auto":
             mode = "manual"
@@ -75,6 +77,9 @@ class C07(Prop):
             manual = [rng.choice([[r, r], [0, r], [4 * r, r], [r, 0, 4 * r, r], [0], [2 * r, r, 1]])]
         elif mode == "manual-big":
             manual = [[r, 100000]]
+        elif mode == "manual-many":
+            # more distinct sizes than the directory has slots (MAX_ZOOM_LEVELS = 10): the finest ten are kept
+            manual = [rng.sample(range(1, 30), rng.choice([11, 12, 15])) + rng.choice([[], [0], [3]])]
         else:
             izoom, maxz = rng.choice([1, 2, 5, 10, r]), rng.choice([1, 3, 10])
         fmode = "nice" if rng.random() < 0.8 else "any"
@@ -118,7 +123,8 @@ class C07(Prop):
         n = 700 if tier == "quick" else 14000
         # the design's witnesses first (D1a, D1b) and a three-value input with a gap
         for manual, vals in (([10], [(0, 5, 1.0), (20, 25, 1.0)]), ([10], [(0, 5, 1.0), (10, 15, 100.0)]),
-                             ([10], [(2, 9, 1.0), (9, 14, 3.25), (30, 31, -1.0)]), ([1], [(0, 3, 2.0), (4, 5, 0.5)])):
+                             ([10], [(2, 9, 1.0), (9, 14, 3.25), (30, 31, -1.0)]), ([1], [(0, 3, 2.0), (4, 5, 0.5)]),
+                             (list(range(2, 13)), [(0, 7, 1.0), (9, 30, 2.0)]), ([12, 3, 5, 7, 9, 11, 2, 4, 6, 8, 10, 13, 0, 3], [(1, 26, 0.5), (26, 27, 7.0)])):
             for kind in (0, 1):
                 inp = [["chr1", s, e, bbigen.f32bits(v)] for (s, e, v) in vals]
                 qs = [[2, "chr1", 0, 40, manual[0]], [2, "chr1", 5, 20, manual[0]], [2, "chr1", 10, 10, manual[0]]]
